@@ -13,7 +13,8 @@ View == <<lst, idx>>
 Cfg   == [typed |-> Typed, intkeys |-> IntKeys]
 Items == [k : Keys, p : Payloads, bad : {"no"}]
 AnyKey == CHOOSE k \in Keys : TRUE
-BadItems == IF Typed THEN {[k |-> AnyKey, p |-> 0, bad |-> "item"], [k |-> AnyKey, p |-> 0, bad |-> "key"]} ELSE {}
+\* "itemk": an item of the wrong type that nevertheless yields a perfectly good key (possibly one already present)
+BadItems == IF Typed THEN {[k |-> AnyKey, p |-> 0, bad |-> "item"], [k |-> AnyKey, p |-> 0, bad |-> "key"]} \cup {[k |-> k, p |-> 0, bad |-> "itemk"] : k \in Keys} ELSE {}
 XItems == Items \cup BadItems
 Idxs  == (0 - MaxLen - 1)..(MaxLen + 1)
 Batches == {<<>>} \cup {<<x>> : x \in XItems} \cup {<<x, y>> : x \in XItems, y \in Items}
